@@ -358,7 +358,7 @@ def marker_data(m):
     d = content(seed, ln)
     pre = {"jfif": b"JFIF\0\x01\x02\x01\x00\x48\x00\x60\x00\x00", "jfxx": b"JFXX\0\x13", "jfif-short": b"JFIF\0\x01",
            "adobe": b"Adobe\0\x64\x80\0\0\0\x01", "adobe0": b"Adobe\0\x64\x80\0\0\0\x00", "adobe1": b"Adobe\0\x64\x80\0\0\0\x01",
-           "adobe2": b"Adobe\0\x64\x80\0\0\0\x02", "adobe-short": b"Adobe"}.get(style, b"")
+           "adobe2": b"Adobe\0\x64\x80\0\0\0\x02", "adobe-short": b"Adobe", "iccsig": SIG}.get(style, b"")
     if pre:
         d = (pre + d)[:max(ln, 0)] if ln >= len(pre) else pre
     if style == "adobe-short":
@@ -1029,6 +1029,88 @@ def run_xh(ctx, R, cases):
         R.corr("copy-history", "option %d after [%s]" % (eopt, hdesc), m, got, cases[ci], failed)
 
 
+# ------------------------------------------------ copying: several transforms in ONE tj3Transform call
+def xm_cases(ctx):
+    rng = ctx.rng
+    cases = []
+    fixed = [(2, "01"), (2, "10"), (4, "01"), (2, "11"), (3, "01"), (1, "10"), (2, "010"), (4, "1001")]
+    for i in range(ctx.n(20, 200)):
+        sm, flags = fixed[i] if i < len(fixed) else (rng.range(0, 4), "".join(rng.choice("01") for _ in range(rng.range(2, 4))))
+        cs = rng.choice(["gray", "ycc", "rgb", "cmyk", "ycck"])
+        ms = rng.shuffle([[254, rng.range(1, 60), rng.next(), "rand"], [225, rng.range(0, 80), rng.next(), "rand"],
+                          [226, rng.choice([3, 12, 13, 40]), rng.next(), rng.choice(["rand", "iccsig"])]])
+        cases.append({"kind": "xm", "cs": cs, "markers": ms, "icclen": rng.choice([0, rng.range(1, 2000), rng.range(1, 2000), CHUNK + rng.range(1, 40)]),
+                      "iccseed": rng.next(), "iccpos": rng.choice([0, -1, 1]), "sm": sm, "flags": flags,
+                      "dsticc": rng.choice([0, rng.range(1, 900), rng.range(1, 900)]), "dstseed": rng.next()})
+    return cases
+
+
+def run_xm(ctx, R, cases):
+    srcl = []
+    for c in cases:
+        ds = [(m[0], marker_data(m)) for m in c["markers"]]
+        icc = content(c["iccseed"], c["icclen"])
+        pos = c["iccpos"] if c["iccpos"] <= len(ds) else -1
+        srcl.append("jc 16 16 %s 1x1,1x1,1x1,1x1 8 b 1 0 0 - d d %d %s %s" % (c["cs"], pos, hx(icc), ",".join("%d:%s" % (code, d.hex()) for code, d in ds)))
+    srcs = R.harness(srcl, lambda i: cases[i])
+    srd = R.harness(["rd %s %s" % (ALLSAVE, o[3:]) if o.startswith("ok ") else "-" for o in srcs], lambda i: cases[i])
+    hl = ["xfm %d %s %s %s" % (c["sm"], c["flags"], hx(content(c["dstseed"], c["dsticc"])), o[3:]) if o.startswith("ok ") else "-" for c, o in zip(cases, srcs)]
+    outs = R.harness(hl, lambda i: cases[i])
+    ml, meta, hl2, meta2 = [], [], [], []
+    for ci, (c, o, h) in enumerate(zip(cases, outs, srd)):
+        if not srcs[ci].startswith("ok ") or not h.startswith("hdr"):
+            continue
+        if not o.startswith("ok "):
+            ctx.violation("tj3Transform with %d transforms failed: %s" % (len(c["flags"]), o[:60]), {"case": c}, signature="xm-failed")
+            continue
+        kv = dict(x.split("=", 1) for x in h.split() if "=" in x)
+        jcs = int(kv["cs"]); wj, wa = jcs in (1, 3), jcs in (2, 4, 5)
+        ssegs, _ = parse(bytes.fromhex(srcs[ci][3:]))
+        shead = [s for s in ssegs[:next(i for i, s in enumerate(ssegs) if not is_appcom(s[0]))]]
+        dicc = content(c["dstseed"], c["dsticc"])
+        tail_icc = []
+        if dicc:
+            n = (len(dicc) + CHUNK - 1) // CHUNK
+            tail_icc = [(0xE2, SIG + bytes([k + 1, n]) + dicc[k * CHUNK:(k + 1) * CHUNK]) for k in range(n)]
+        res = o.split()[1:]
+        gots = []
+        for ti, fl in enumerate(c["flags"]):
+            eopt = 0 if fl == "1" else c["sm"]
+            osegs, _ = parse(bytes.fromhex(res[ti])) if ti < len(res) and res[ti] != "-" else (None, None)
+            if osegs is None:
+                ctx.violation("output %d of a %d-transform call unparsable" % (ti, len(c["flags"])), {"case": c}, signature="xm-unparsable")
+                gots.append([]); continue
+            ohead = [s for s in osegs[:next(i for i, s in enumerate(osegs) if not is_appcom(s[0]))]]
+            got = ohead[1:]
+            gots.append(got)
+            exp = [(code, d) for code, d in shead if policy(eopt, code)
+                   and not (wj and code == 0xE0 and d[:5] == b"JFIF\0" and len(d) >= 5) and not (wa and code == 0xEE and d[:5] == b"Adobe" and len(d) >= 5)]
+            # the instance profile is written unless THIS transform copied an ICC-looking APP2 marker
+            copied = eopt in (2, 4) and any(code == 0xE2 and len(d) >= 12 and d[:12] == SIG for code, d in shead)
+            want = exp + ([] if copied else tail_icc)
+            if got != want:
+                ctx.violation("tj3Transform, transform %d of %d (TJPARAM_SAVEMARKERS=%d, TJXOPT_COPYNONE flags %s%s): extra markers %s, expected %s "
+                              "(the policy sub-list for this transform's own option, then the instance profile unless this transform copied one)" % (
+                                  ti, len(c["flags"]), c["sm"], c["flags"], ", instance profile set" if dicc else "",
+                                  [(a, len(b)) for a, b in got][:10], [(a, len(b)) for a, b in want][:10]),
+                              {"case": c, "transform": ti}, signature="copy-multi:%d:%s" % (eopt, "icc" if dicc else "noicc"))
+            wi = py_read_icc(want)
+            hl2.append("tjrd -1 " + res[ti]); meta2.append((ci, ti, wi))
+            ctx.count("xm-opt%d-%s" % (eopt, "mixed" if len(set(c["flags"])) > 1 else "uniform"), 1, ("xm", c["sm"], c["flags"], ti, tuple((a, len(b)) for a, b in got)))
+        ml.append("tjm %d %s %d %d %s %s" % (c["sm"], c["flags"], int(wj), int(wa), hx(dicc), hx(rebuild(ssegs, b""))))
+        meta.append((ci, "x " + " | ".join("".join(" m %d %d %s ;" % (a, len(b), fnv(b)) for a, b in g) for g in gots)))
+    mres = R.model(ml)
+    for (ci, got), m in zip(meta, mres):
+        R.corr("copy-multi", "per-transform extras", m, got, cases[ci])
+    hres = R.harness(hl2, lambda i: cases[meta2[i][0]])
+    for (ci, ti, wi), h in zip(meta2, hres):
+        got = h.rsplit("| ", 1)[-1].replace(" second-get-succeeded", "")
+        want = icc_str(wi) if wi[0] == "ok" else "icc absent"
+        if got != want:
+            ctx.violation("ICC profile of output %d of a multi-transform call: got '%s' expected '%s'" % (ti, got[:50], want), {"case": cases[ci], "transform": ti},
+                          signature="copy-multi-icc")
+
+
 # ------------------------------------------------------------------- known-finding probes
 def run_probes(ctx, R):
     """Regression cases of the two defects found with this check and since fixed in the tree (design/C16.md,
@@ -1071,7 +1153,7 @@ def run(ctx):
     flavours = ["simd"] if not ctx.thorough() else ["simd", "asan"]
     exes = {fl: ctx.cc("c16", ["c16.c"], fl, libs=("turbojpeg",)) for fl in flavours}
     R = Runner(ctx, exes, drv)
-    runners = {"icc": run_icc, "mk": run_mk, "hp": run_hp, "xf": run_xf, "xh": run_xh}
+    runners = {"icc": run_icc, "mk": run_mk, "hp": run_hp, "xf": run_xf, "xh": run_xh, "xm": run_xm}
     if ctx.replay:
         r = json.load(open(ctx.replay))
         c = r.get("case")
@@ -1097,6 +1179,7 @@ def run(ctx):
     ctx.log("header stream done")
     run_xf(ctx, R, xf_cases(ctx))
     run_xh(ctx, R, xh_cases(ctx))
+    run_xm(ctx, R, xm_cases(ctx))
     ctx.log("copy stream done")
     return finish(ctx, R)
 
